@@ -14,7 +14,12 @@ Say(vs) == IF vs = {} THEN lost' = FALSE ELSE PrintT(<<"VIOL", l, vs>>) /\ lost'
 AskViol(r) ==
    (IF r.note # "" THEN {"C17_StepDidNotComplete"} ELSE {})
    \cup (IF r.hit # (last'.op = "ask" /\ last'.hit) /\ r.ev # "ask" THEN {"C17_SameQuestionSameKey"} ELSE {})
-   \cup (IF last'.op = "ask" /\ (r.err # last'.err \/ (~r.err /\ SeqToSet(r.ans) # last'.ans)) THEN {"C17_OnlyWhatWasSaid"} ELSE {})
+   \* an answer from the cache must be one the directory gave for this very question (the statement does not say
+   \* WHICH of them a cache keeps: the specification's cache keeps the latest, an implementation may keep another);
+   \* an answer fetched now must be the one the directory gave to this call
+   \cup (IF last'.op = "ask" /\ last'.hit /\ r.hit
+         THEN (IF r.err \/ SeqToSet(r.ans) \notin said'[K(r)] THEN {"C17_OnlyWhatWasSaid"} ELSE {})
+         ELSE IF last'.op = "ask" /\ (r.err # last'.err \/ (~r.err /\ SeqToSet(r.ans) # last'.ans)) THEN {"C17_OnlyWhatWasSaid"} ELSE {})
 
 TInit == Init /\ l = 1 /\ lost = FALSE /\ TLCSet(1, 1)
 TStep ==
@@ -27,7 +32,18 @@ TStep ==
         ELSE CASE r.ev = "change" -> Change(r.u, SeqToSet(r.gs)) /\ lost' = FALSE
                [] r.ev = "miss" -> AskBegin(r.t, K(r)) /\ Say(IF r.hit \/ r.note # "" THEN {"C17_SameQuestionSameKey"} ELSE {})
                [] r.ev = "ask" /\ r.hit -> AskBegin(r.t, K(r)) /\ Say(AskViol(r))
-               [] r.ev = "ask" /\ ~r.hit -> Store(r.t) /\ Say(AskViol(r))
+               [] r.ev = "ask" /\ ~r.hit /\ th[r.t].pc = "store" -> Store(r.t) /\ Say(AskViol(r))
+               [] r.ev = "ask" /\ ~r.hit /\ th[r.t].pc # "store" ->
+                    \* the specification's cache holds the answer, the implementation asked the directory all the same (a
+                    \* cache is free not to keep an answer): what it returns must be what the directory says now
+                    LET k == K(r)  a == member[k.u] \cap k.G IN
+                    /\ PrintT(<<"DRIFT", l, {"asked the directory although the answer was cached"}>>)
+                    /\ Say((IF r.note # "" THEN {"C17_StepDidNotComplete"} ELSE {})
+                           \cup (IF r.err \/ SeqToSet(r.ans) # a THEN {"C17_OnlyWhatWasSaid"} ELSE {}))
+                    /\ said' = [said EXCEPT ![k] = @ \cup {a}]
+                    /\ lc' = [lc EXCEPT ![k] = Some(a)]
+                    /\ last' = [op |-> "ask", t |-> r.t, u |-> k.u, G |-> k.G, hit |-> FALSE, ans |-> a, err |-> FALSE]
+                    /\ UNCHANGED <<member, th>>
                [] r.ev = "fetch" -> Fetch(r.t, r.fail) /\ Say(IF r.note # "" THEN {"C17_StepDidNotComplete"} ELSE {})
                [] r.ev = "purge" -> Purge(K(r)) /\ lost' = FALSE
    /\ l' = l + 1
